@@ -43,26 +43,39 @@ Lemma true_rel_ok e ab lead rel :
   resolve (e_cwd e) (GP ab (lead ++ rel)) = (e_root e ++ rel)%list -> true_rel e (GP ab (lead ++ rel)) = rel.
 Proof. intros H. unfold true_rel. rewrite H, strip_prefix_app. reflexivity. Qed.
 
-Theorem file_location_independent q e sg cfg ab lead rel lg raw :
-  flags_off q -> rel <> [] ->
-  resolve (e_cwd e) (GP ab (lead ++ rel)) = (e_root e ++ rel)%list ->
-  file_result q e sg cfg {| f_given := GP ab (lead ++ rel); f_lang := lg; f_raw := raw |}
+(* general form: ANY spelling of the file (also `mod.py` or `../mod.py` from a sub-directory of the project, where the given
+   path is shorter than the path inside the project) that resolves to root ++ rel and keeps the file name *)
+Theorem file_location_independent_gen q e sg cfg g rel lg raw :
+  flags_off q -> name_of (g_parts g) = name_of rel ->
+  resolve (e_cwd e) g = (e_root e ++ rel)%list ->
+  file_result q e sg cfg {| f_given := g; f_lang := lg; f_raw := raw |}
   = spec_file (e_root_pats e) sg cfg {| s_rel := rel; s_lang := lg; s_raw := raw |}.
 Proof.
-  intros (H1 & H2 & H3 & H3b & H4 & H5) Hne Hres.
-  unfold file_result, spec_file. cbn [f_given f_lang f_raw s_rel s_lang s_raw g_parts].
-  rewrite (true_rel_ok _ _ _ _ Hres), (name_of_app _ _ Hne).
+  intros (H1 & H2 & H3 & H3b & H4 & H5) Hname Hres.
+  unfold file_result, spec_file. cbn [f_given f_lang f_raw s_rel s_lang s_raw].
+  assert (Hrel : true_rel e g = rel) by (unfold true_rel; rewrite Hres, strip_prefix_app; reflexivity).
+  rewrite Hrel, Hname.
   unfold rule_ignored, orch_ignored, fp_path. rewrite H1, H2, H3, H3b, H4, H5. cbn [andb].
   destruct (hard_excluded rel (name_of rel)); [reflexivity|].
   destruct (repo_ignored (e_root_pats e) (unrooted rel) rel); [reflexivity|].
   rewrite andb_false_r. destruct (cs_ikind sg); reflexivity.
 Qed.
 
+Theorem file_location_independent q e sg cfg ab lead rel lg raw :
+  flags_off q -> rel <> [] ->
+  resolve (e_cwd e) (GP ab (lead ++ rel)) = (e_root e ++ rel)%list ->
+  file_result q e sg cfg {| f_given := GP ab (lead ++ rel); f_lang := lg; f_raw := raw |}
+  = spec_file (e_root_pats e) sg cfg {| s_rel := rel; s_lang := lg; s_raw := raw |}.
+Proof.
+  intros Hq Hne Hres. apply file_location_independent_gen; [exact Hq| |exact Hres].
+  cbn [g_parts]. now apply name_of_app.
+Qed.
+
 (* a model file and a specification file talk about the same file of the project *)
 Definition denotes (e : env) (f : file) (s : sfile) : Prop :=
-  exists ab lead, f_given f = GP ab (lead ++ s_rel s) /\ s_rel s <> []
-    /\ resolve (e_cwd e) (GP ab (lead ++ s_rel s)) = (e_root e ++ s_rel s)%list
-    /\ f_lang f = s_lang s /\ f_raw f = s_raw s.
+  name_of (g_parts (f_given f)) = name_of (s_rel s)
+  /\ resolve (e_cwd e) (f_given f) = (e_root e ++ s_rel s)%list
+  /\ f_lang f = s_lang s /\ f_raw f = s_raw s.
 
 Theorem run_location_independent q e sg cfg files sfiles :
   flags_off q -> Forall2 (denotes e) files sfiles ->
@@ -70,9 +83,9 @@ Theorem run_location_independent q e sg cfg files sfiles :
 Proof.
   intros Hq HF. unfold run_result, spec_result. induction HF as [|f s fs ss Hd _ IH]; [reflexivity|].
   cbn [map]. rewrite IH. f_equal.
-  destruct Hd as (ab & lead & Hg & Hne & Hres & Hl & Hr). destruct f as [g l r]. destruct s as [rel sl sr].
-  cbn [f_given f_lang f_raw s_rel s_lang s_raw] in *. subst g l r.
-  now apply file_location_independent.
+  destruct Hd as (Hn & Hres & Hl & Hr). destruct f as [g l r]. destruct s as [rel sl sr].
+  cbn [f_given f_lang f_raw s_rel s_lang s_raw] in *. subst l r.
+  now apply file_location_independent_gen.
 Qed.
 
 (* the headline: the same project at two locations / from two working directories / in two spellings *)
